@@ -20,6 +20,7 @@ func genExec(prop string, minProv, maxProv int, asyncMode string, needErr bool) 
 		if asyncMode == "" {
 			o.AsyncMode = rapid.SampledFrom([]string{"some", "some", "all"}).Draw(rt, "asyncmode")
 		}
+		o.WideBias = prop == "C03" || prop == "C01"
 		cs := spec.Gen(rt, o)
 		k := KCase{Spec: cs, Salt: uint32(rapid.IntRange(1, 1<<16).Draw(rt, "salt"))}
 		n := 4
@@ -435,6 +436,12 @@ func c03Dynamic(c *Ctx, o *execOutcome, v *Verdict) *Verdict {
 		if th >= 2 {
 			v.NonTrivial = true
 			v.Features["threads>=2"] = true
+		}
+		if th >= 4 {
+			v.Features["threads>=4"] = true
+		}
+		if th >= 7 {
+			v.Features["threads>=7"] = true
 		}
 		if ex.Crashed {
 			kind := "crash"
